@@ -17,7 +17,8 @@ from ..gen import spec as gs
 from . import _generic as g
 
 PROP = "C07"
-CLASSES = {"int-status-key-drops-operation": "F16", "yaml-int-status-key": "F16", "dedup-suffix-collision": "F17"}
+CLASSES = {"int-status-key-drops-operation": "F16", "yaml-int-status-key": "F16", "dedup-suffix-collision": "F17",
+           "empty-operation-id-drops-operation": "F44", "duplicate-tag-same-client": "F45"}
 
 
 def case_fn(case: dict, d):
@@ -118,8 +119,8 @@ def check(run: Run, ctx) -> None:
     known = findings.Known(run, PROP)
     for mod, name in (("vf.corr.c07", "Ops (operation parsing, id derivation)"),):
         try:
-            g.run_corr(run, ctx, mod, name)
-            g.run_oracle(run, ctx, known, mod, "C07 on the real loader", CLASSES)
+            g.run_corr(run, ctx, mod, name, quick=0.5, thorough=5.0)
+            g.run_oracle(run, ctx, known, mod, "C07 on the real loader", CLASSES, quick=0.4, thorough=4.0)
         except ModuleNotFoundError:
             run.notes.append(f"{mod} not present yet")
     run.cov["rule"] = (run.cov.get("rule") or "") + ("[e2e] random documents (0-3 tags per operation, absent / duplicated / FastAPI-style operationIds) x {JSON, YAML block, YAML flow, "
